@@ -175,6 +175,17 @@ func (t *Tables) DrawBase(rt *rapid.T, label string) string {
 		return rapid.SampledFrom(t.FamilyIDs).Draw(rt, label)
 	case 6, 7:
 		return rapid.SampledFrom(t.UnrelatedIDs()).Draw(rt, label)
+	case 8:
+		// the deprecated list is short and its ids take their own paths through the scanner
+		var dep []string
+		for _, id := range t.Deprecated {
+			if idShaped(id) {
+				dep = append(dep, id)
+			}
+		}
+		if len(dep) > 0 {
+			return rapid.SampledFrom(dep).Draw(rt, label)
+		}
 	}
 	return rapid.SampledFrom(t.AllLic).Draw(rt, label)
 }
